@@ -3,6 +3,7 @@ package locks
 import (
 	"fmt"
 	"math"
+	"os"
 	"sort"
 	"strings"
 
@@ -215,6 +216,19 @@ type failure struct{ fingerprint, message string }
 //     overlapping equal-type entries of one owner get "combined"): sorted by
 //     start, non-empty, per-owner disjoint, per-owner merged, list links intact.
 func compareTable(es []entry, linksIntact bool, m *model) *failure {
+	f := compareTableAll(es, linksIntact, m)
+	if f != nil && semanticOnly && strings.HasPrefix(f.fingerprint, "structure/") {
+		return nil
+	}
+	return f
+}
+
+// semanticOnly (LOCKS_SEMANTIC_ONLY=1) switches the structural clauses off;
+// used only for mutation experiments, to see how much later the purely
+// semantic clauses (Test verdicts, coverage) notice a structural defect.
+var semanticOnly = os.Getenv("LOCKS_SEMANTIC_ONLY") != ""
+
+func compareTableAll(es []entry, linksIntact bool, m *model) *failure {
 	if !linksIntact {
 		return &failure{"structure/links", "next/previous pointers of the list disagree: " + entriesString(es)}
 	}
